@@ -1275,19 +1275,17 @@ class Context:
         compiler = Compiler()
         compiled = compiler.compile(ast)
 
-        # Execute
-        vm = VM(memory_limit=self.memory_limit, time_limit=self.time_limit)
-
-        # Share globals with VM (don't copy - allows nested eval to modify globals)
-        vm.globals = self._globals
-        vm._context = self
+        # Execute. Called by a host function while an evaluation is running, the
+        # code is part of that evaluation (same deadline, nesting depth counted)
+        outer_vm = self._current_vm
+        vm = self._nested_vm()
 
         # Store current VM for timeout checking in RegExp constructor
         self._current_vm = vm
         try:
             result = vm.run(compiled)
         finally:
-            self._current_vm = None
+            self._current_vm = outer_vm
 
         return self._to_python(result)
 
